@@ -1064,3 +1064,50 @@ def r4_11(rep):
     ok = bool(uses) or direct
     rep.check(ok, "thread-local-rejected@Var::parse", "Var::parse consults the TLS kind of the declaration" if ok else
               "nothing on the way from Var::parse asks libclang whether the variable is thread-local: it is bound like an ordinary global", vp.loc(vp.root))
+
+
+@RULES.rule("R4.12", "well-known typedef names are replaced by a Rust primitive only when C guarantees the width (shared with C02 R2.8)", floor=13)
+def r4_12(rep):
+    """`utils::type_from_named` replaces a typedef by its name alone.  `int_fast32_t` is 8 bytes on glibc x86-64 and 4 on Darwin:
+    mapping it (or any `least` / `fast` / `max` name) to a fixed-width Rust integer makes `int_fast32_t half(int_fast32_t)` a function
+    of `i32` — the caller passes and reads back the wrong width (seeded change).  Same rule instance as R2.8 (oracle of names whose
+    width the C standard fixes)."""
+    import c02
+    c02.r2_8(rep)
+
+
+ANCHORED_STR_TESTS = {"ends_with", "strip_suffix"}
+UNANCHORED_STR_TESTS = {"contains", "find", "rfind", "split_once", "rsplit_once", "matches", "rmatches", "split", "rsplit", "starts_with", "match_indices"}
+
+
+@RULES.rule("R4.13", "the destructor symbol bound is the complete-object destructor: the `D1` test is anchored at the end of the mangling", floor=2)
+def r4_13(rep):
+    """libclang lists several Itanium manglings for a destructor (D0 deleting, D1 complete, D2 base).  `cursor_mangling` keeps the one
+    that ends in `D1Ev`.  Class and namespace names are part of the mangling verbatim, so only a test anchored at the END can tell the
+    marker from a name: with "contains D1 .. ends with Ev" the deleting destructor `_ZN7SSD1306D0Ev` of `class SSD1306` is taken, and
+    dropping the Rust value also calls `operator delete` on it (seeded change).  Every string test in `cursor_mangling` (and the
+    helpers it calls) whose literal contains `D1` must be `ends_with` / `strip_suffix`."""
+    prog = rep.prog
+    b = rep.need(prog.fn("ir::function::cursor_mangling"), "ir::function::cursor_mangling")
+    todo, seen = [b], set()
+    n = 0
+    while todo:
+        x = todo.pop()
+        if x.path in seen:
+            continue
+        seen.add(x.path)
+        for c in x.calls():
+            cal = c.get("resolved") or c.get("callee") or ""
+            if cal.startswith("ir::function::") and cal in prog.bodies and len(seen) < 6:
+                todo.append(prog.bodies[cal])
+            if c["k"] != "MCall" or c["name"] not in ANCHORED_STR_TESTS | UNANCHORED_STR_TESTS:
+                continue
+            lits = [l.get("v") for a in c.get("args", []) for l in x.walk(a) if l["k"] == "Lit" and isinstance(l.get("v"), str)]
+            if not any("D1" in l or "D0" in l or "D2" in l for l in lits):
+                continue
+            n += 1
+            ok = c["name"] in ANCHORED_STR_TESTS
+            rep.check(ok, "destructor-marker-anchored@%s" % x.path.split("::")[-1], "`%s(%r)`" % (c["name"], lits[0]) if ok else
+                      "`%s(%r)` finds the marker anywhere in the mangled name; names are mangled verbatim (`SSD1306`, `MD1`), so the "
+                      "deleting destructor D0 of such a class passes the test and is bound instead of D1" % (c["name"], lits[0]), x.loc(c))
+    rep.need(n >= 1, "string tests for the D1 marker in cursor_mangling")
